@@ -51,7 +51,7 @@ func init() {
 			}
 			transmit.VerifC35SetRoundTripper(d, okRT{})
 			d.EnqueueEvent(mkEvent("http://a", "ds1")) // a pending batch for destination a/ds1
-			clk.Advance(500 * time.Millisecond)          // … which is now stale (the parked dispatcher's tickers are never read)
+			clk.Advance(500 * time.Millisecond)        // … which is now stale (the parked dispatcher's tickers are never read)
 			return &txEnv{d, clk}
 		},
 		Done: func(e any) { e.(*txEnv).d.Stop() },
